@@ -113,6 +113,10 @@ def check_root(ctx, case):
     means = case['means']
     layout = make_layout(rng)
     ds = [make_obs(rng, nprng, layout, m, rel=case['rel'], kind=k, exact_mean=case['exact']) for m, k in zip(means, case['kinds'])]
+    if case.get('int_first'):
+        # an external input handed over with an integer mean (`cov_Obs(2, ...)`): its central value is a Python int
+        k_ = max(1, int(round(means[0])))
+        ds[0] = pe.cov_Obs(k_, (case['rel'] * k_) ** 2, 'cvI')
     dvals = [float(o.value) for o in ds]
     try:
         xt, grads = inv(dvals)
@@ -251,7 +255,7 @@ def gen_case(ctx):
         exact = rng.random() < 0.5 or any(abs(m) < 1e-5 for m in means)
         return {'what': 'root', 'family': fam, 'seed': rng.getrandbits(28), 'means': means, 'kinds': [rng.choice(kinds[1:]) for _ in range(n)],
                 'rel': rng.choice([0.01, 0.03]), 'exact': exact, 'guess_factor': rng.choice([1.0, 1.1, 0.9]), 'guess_shift': rng.choice([0.0, 0.05]),
-                'as_list': rng.random() < 0.5}
+                'as_list': rng.random() < 0.5, 'int_first': rng.random() < 0.2}
     fam = rng.choice(sorted(INTS))
     func, F, gen = INTS[fam]
     means = gen(rng)
